@@ -501,6 +501,12 @@ Ltac rw_pc :=
                  end
       end.
 
+(* use the equations [proj s = ..] produced by the case analysis in the other hypotheses *)
+Ltac rw_eqs :=
+  repeat match goal with
+         | H : ?p ?s = _ |- _ => is_var s; progress (rewrite H in * |-)
+         end.
+
 (* case analysis of one step of any thread; the goal is simplified *)
 Ltac step_split t Hst :=
   destruct t as [?pick|?i]; cbn [step] in Hst; [co_cases Hst | wk_cases Hst]; msimpl.
